@@ -306,6 +306,46 @@ def correspond(ctx, scale):
                     break
         except Exception as ex:
             failures.append({'key': f'{cls}:interleaved:exception:{type(ex).__name__}', 'what': f'{cls}: {ex!r}', 'case': dict(cls=cls, interleaved=True)})
+    # the caller used a LAYER on its own before (layer(x, return_loss_breakdown=True) where the class offers it) and accumulated in place into what it got
+    # back - afterwards the dropped layers of the stack still report exactly zero loss entries (a shared "zero" tensor handed out by a layer would
+    # have been overwritten)
+    for cls in [c for c in classes if not c.startswith('Grouped')]:
+        try:
+            qs_ = make(cls, 6, 0, 1)
+            qs_.train()
+            lay0 = qs_.layers[0]
+            xs_ = torch.randn(2, 5, DIMS[cls])
+            for kwb in (dict(return_loss_breakdown=True), {}):
+                for tr_ in (True, False):
+                    lay0.train(tr_)
+                    try:
+                        rl = lay0(xs_ if not hasattr(qs_, 'project_in') else qs_.project_in(xs_).detach(), **kwb)
+                    except Exception:
+                        continue
+
+                    def scribble(r_):
+                        if isinstance(r_, torch.Tensor) and r_.dtype.is_floating_point:
+                            with torch.no_grad():
+                                r_.detach().add_(0.4246)
+                        elif isinstance(r_, (tuple, list)):
+                            for e_ in r_:
+                                scribble(e_)
+                    try:
+                        scribble(rl)
+                    except RuntimeError:
+                        pass
+            qs_.train()
+            for seed in (seed_for[(0, 6)][1], seed_for[(0, 6)][3]):
+                flags, problems = run_one(qs_, cls, 6, seed, False)
+                evaluations += 1
+                dist['after_layer_outputs_overwritten'] = dist.get('after_layer_outputs_overwritten', 0) + 1
+                bad_p = [p_ for p_ in problems if 'dropped but loss' in p_]
+                if bad_p:
+                    failures.append({'key': f'{cls}:dropped-layer-loss-nonzero-after-caller-wrote-into-layer-outputs', 'what': f'{cls}(n=6) seed={seed}: after the caller accumulated in place into tensors returned by '
+                                     f'layers[0], {bad_p[0]}', 'case': dict(cls=cls, n=6, cutoff=0, m=1, seed=seed, image=False, train=True, expect_drop=True, scribble=True)})
+                    break
+        except Exception as ex:
+            failures.append({'key': f'{cls}:layer-scribble:exception:{type(ex).__name__}', 'what': f'{cls}: {ex!r}', 'case': dict(cls=cls, scribble=True)})
     # train() / eval() called on ONE group only (a frozen or swapped-in pretrained group): the groups that are still training share one depth, the
     # evaluation-mode group never drops - the shared seed belongs to the call, not to a particular group's flag
     from vector_quantize_pytorch import GroupedResidualVQ as _G1, GroupedResidualFSQ as _G2, GroupedResidualLFQ as _G3
